@@ -97,6 +97,18 @@ Theorem C11_effective_command :
 Proof. exact (conj get_command_perm (conj inactive_config_edits_invisible reuse_has_effective_text)). Qed.
 Print Assumptions C11_effective_command.
 
+(* The build cache (the part of the state that decides between needToRun's two paths): for ALL histories, a
+   test binary is fetched from the directory cache (target state Cached: needToRun consults the result cache,
+   not the results file) only if an earlier invocation of this history ran the build command for the same
+   rule and sources; and with a directory cache the build command never runs twice for one build key. *)
+Theorem C11_build_cache :
+  (forall (cache_on : bool) (pre : list step) (x : step),
+     fetched cache_on (pre_state cache_on pre x) (s_def x) = true -> built_by cache_on pre (t_build (s_def x)))
+  /\ (forall (pre : list step) (x : step),
+        builds true (pre_state true pre x) (s_def x) = true -> ~ built_by true pre (t_build (s_def x))).
+Proof. exact (conj fetched_only_what_was_built built_once_with_cache). Qed.
+Print Assumptions C11_build_cache.
+
 (* The three known defect classes, as the classifier names them, each with a stale cached pass. *)
 Example C11_witness_args :
   forall c, exists pre x, w_args = pre ++ [x] /\ report_at c pre x = CachedPass /\ step_outcome x = false
@@ -121,7 +133,7 @@ Definition nv_def (content : str) : tsrc :=
      ts_cmds := Single (s "grep ok") (TPassIf (s "ok"));
      ts_files := [ {| rf_role := ROut; rf_dest := s "t.bin"; rf_node := File (s "bin") |};
                    {| rf_role := RData; rf_dest := s "p/a.txt"; rf_node := File content |} ];
-     ts_bin := s "bin" |}.
+     ts_bin := s "bin"; ts_build := [s "//p:t"; s "s.txt"; s "bin"; s "t.bin"; s "cat"] |}.
 Definition nv_step (rm : bool) (content : str) : step :=
   {| s_rm := rm; s_config := []; s_args := []; s_src := nv_def content |}.
 Definition nv_hist : list step :=
@@ -142,7 +154,8 @@ Proof. vm_compute. repeat split. Qed.
 Definition nv_arg (a : list str) : step :=
   {| s_rm := false; s_config := []; s_args := a;
      s_src := {| ts_rule := [s "//p:t"; s "s.txt"; s "t.bin"; s "cat"]; ts_cmds := Single (s "sh -c") (TArgIs (s "good"));
-                 ts_files := [ {| rf_role := ROut; rf_dest := s "t.bin"; rf_node := File (s "bin") |} ]; ts_bin := s "bin" |} |}.
+                 ts_files := [ {| rf_role := ROut; rf_dest := s "t.bin"; rf_node := File (s "bin") |} ]; ts_bin := s "bin";
+                 ts_build := [s "//p:t"; s "s.txt"; s "bin"; s "t.bin"; s "cat"] |} |}.
 Definition nv_args_hist : list step := [ nv_arg [s "good"]; nv_arg [s "good"]; nv_arg []; nv_arg [s "bad"] ].
 
 Definition nv_dict (cfg : str) (opt dbg : str) : step :=
@@ -167,3 +180,10 @@ Proof.
          [ (s "opt", (s "ok", TPassIf (s "ok"))); (s "dbg", (s "nope", TPassIf (s "nope"))) ], (s "ok", TPassIf (s "ok")).
   split; [reflexivity|]. split; [reflexivity|]. split; vm_compute; reflexivity.
 Qed.
+
+(* Non-vacuity of C11_build_cache: with a cache, rm -rf plz-out makes the last step of nv_hist fetch the binary
+   (so it consults the result cache), and the first step builds. *)
+Example C11_nonvacuous_build_cache :
+  fetched true (pre_state true (removelast nv_hist) (nv_step true (s "ok"))) (s_def (nv_step true (s "ok"))) = true
+  /\ builds true (pre_state true [] (nv_step false (s "ok"))) (s_def (nv_step false (s "ok"))) = true.
+Proof. vm_compute. split; reflexivity. Qed.
